@@ -42,7 +42,18 @@ func gen(seed int64, tier string, idx int) *pipe.Scenario {
 			sc.Cond["ph"] = [2]int{mod, rem}
 		}
 		shape := procShapes[g.R.Intn(len(procShapes))]
+		if family == 1 && idx%8 == 5 {
+			// the alignment clause needs short replies to conditional processors
+			// more often than one shape in eleven
+			shape = "short"
+		}
 		p.Script.Hostile = map[int]string{1 + g.R.Intn(4): shape}
+		if shape == "short" {
+			// several short replies per run
+			for k := 0; k < 3; k++ {
+				p.Script.Hostile[1+g.R.Intn(8)] = shape
+			}
+		}
 		switch g.R.Intn(3) {
 		case 0:
 			sc.Topo.Sources[0].Procs = append(sc.Topo.Sources[0].Procs, p)
@@ -53,6 +64,9 @@ func gen(seed int64, tier string, idx int) *pipe.Scenario {
 		}
 		// larger batches so that a reply covers several records
 		sc.Topo.Sources[0].Src.Batches = []int{[]int{1, 3, 5, 8}[g.R.Intn(4)]}
+		if shape == "short" && family == 1 {
+			sc.Topo.Sources[0].Src.Batches = []int{[]int{5, 8, 12}[g.R.Intn(3)]}
+		}
 		kind = fmt.Sprintf("proc:%s:cond=%v", shape, family == 1)
 	case 2: // destination / DLQ ack shapes and source record shapes
 		if g.R.Intn(4) == 0 {
@@ -113,6 +127,15 @@ func judge(out *pipe.Outcome, ix *pipe.Index) pipe.Verdict {
 		e := &out.Evs[i]
 		if e.Kind == rig.KProcCall && strings.Contains(e.Note, "HOSTILE") {
 			hostileSeen = true
+			// A SHORT reply has one documented handling in both engines (arch-v2
+			// pads it and retries the unresolved records, the default engine stops),
+			// and neither may lose, duplicate or misalign a record: the records of
+			// such a call stay under the model. Every other shape leaves the handling
+			// of the records in the call to the engine.
+			if strings.Contains(e.Note, "HOSTILE:short") {
+				v.Stats["short_replies_kept_under_the_model"]++
+				continue
+			}
 			for _, l := range e.Recs {
 				affected[l.Origin()] = true
 			}
@@ -212,6 +235,11 @@ func judge(out *pipe.Outcome, ix *pipe.Index) pipe.Verdict {
 		if x.Class == "out-of-order" {
 			x.Property = "C09"
 			x.Identity = "C09/passthrough-out-of-place/" + sc.Engine
+			v.Violations = append(v.Violations, x)
+		}
+		if x.Class == "written-twice" && strings.Contains(kind, "proc:short") {
+			x.Property = "C09"
+			x.Identity = "C09/result-misaligned-record-written-twice/" + sc.Engine
 			v.Violations = append(v.Violations, x)
 		}
 	}
